@@ -9,9 +9,16 @@ Oracle: after every operation, directly on the real code, every value of the
 result sits at the named world coordinates it had in the *original* image, no
 value is duplicated or invented, shape matches the coordmap's input dimension,
 inputs are left unchanged; a valid operation must not raise.
+
+Further line kinds (see `run` in lean/NipyVerif/Model/C02Run.lean): `iterall` (every element of
+iter_axis, asarray False / True), `ilist` (ImageList.from_image + list indexing, get_list_data,
+iteration), `fromarray`, `pslice` (xslice / yslice / zslice + bounding_box), `bbox`, `prog`
+(operations applied to any earlier object of a store, interleaved), `ornt` / `orntm`
+(the loop of nibabel's io_orientation on the polar factor; monomial affines in full).
 """
 from __future__ import annotations
 
+import inspect
 import itertools
 import random
 import warnings
@@ -28,15 +35,22 @@ IN_POOLS = [list("ijklm"), ["slice", "phase", "freq", "t", "u"], list("abcde"),
 OUT_POOLS = [list("xyztuv"), ["mx", "my", "mz", "t", "u", "v"], ["z", "x", "y", "t", "w", "v"],
              ["t", "x", "y", "z", "u", "v"], ["x", "y", "q", "t", "u", "v"]]
 LEGAL_REFUSALS = ("ValueError", "AxisError", "AxesError", "AffineError", "IndexError")
+FULL = ["S", None, None, None]
 
 
 # ----------------------------------------------------------------------
 # generation (pure functions of the rng and of names / shape of the current image)
 # ----------------------------------------------------------------------
-def gen_image(rng, small=False):
-    nd = rng.choice([1, 2, 2, 3, 3, 3, 4, 4, 5])
+def gen_image(rng, small=False, nd=None):
+    nd = nd or rng.choice([1, 1, 2, 2, 3, 3, 3, 4, 4, 5])
+    skind = rng.random()
     while True:
         shape = [rng.choice([1, 2, 2, 3, 3, 4, 5] if nd <= 3 else [1, 2, 2, 3]) for _ in range(nd)]
+        if skind < 0.08:                      # all axes singleton
+            shape = [1] * nd
+        elif skind < 0.2:                     # one proper axis among singletons
+            k = rng.randrange(nd)
+            shape = [shape[i] if i == k else 1 for i in range(nd)]
         if int(np.prod(shape)) <= (60 if small else 200):
             break
     nout = nd + (1 if rng.random() < 0.1 else 0)
@@ -112,6 +126,8 @@ def gen_getitem(rng, shape):
         i = rng.randrange(0, nd + 1); j = rng.randrange(i, nd + 1)
         atoms = atoms[:i] + [["E"]] + atoms[j:]
     bare = len(atoms) == 1 and rng.random() < 0.5
+    if not bare and rng.random() < 0.15:
+        return ["G", atoms, "sub"]           # through the deprecated subsample()
     return ["G", atoms, bare]
 
 
@@ -196,8 +212,38 @@ def gen_op(rng, shape, inn, outn):
             ti = ti[:-1] + ["nosuch"]
         return ["SY", ti, to, rng.random() < 0.8, rng.random() < 0.8]
     if r < 0.95 or len(outn) < 3 and rng.random() < 0.8:
-        return ["IT", gen_axis(rng, n, inn, outn, allow_bad=False), rng.randrange(0, 1 << 16)]
+        return ["IT", gen_axis(rng, n, inn, outn, allow_bad=rng.random() < 0.3), rng.randrange(0, 1 << 16),
+                rng.random() < 0.5]
     return ["XY"]
+
+
+def gen_lops(rng, nitems, nd_item):
+    """operations on an ImageList with `nitems` items of `nd_item` axes"""
+    ops = []
+    n = nitems
+    for _ in range(rng.choice([1, 2, 2, 3, 4])):
+        r = rng.random()
+        if r < 0.25:
+            ops.append(["LI", rng.randrange(-n - 1, n + 1) if n else 0])
+        elif r < 0.5:
+            a = rng.choice([None, None] + list(range(-n - 2, n + 3)))
+            b = rng.choice([None, None] + list(range(-n - 2, n + 3)))
+            c = rng.choice([None, None, 1, 2, -1, -2, 3, 0])
+            ops.append(["LS", a, b, c])
+            if c != 0:
+                n = len(range(*slice(a, b, c).indices(n)))
+        elif r < 0.58:
+            ops.append(["LO", rng.choice(["list", "array", "tuple", "npint", "bool"])])
+        elif r < 0.9:
+            od = nd_item + 1
+            ops.append(["LD", rng.choice([None] + list(range(-od - 1, od + 1)))])
+        elif r < 0.94:
+            ops.append(["LA"])                          # np.asarray(list): get_list_data(axis=0)
+        elif r < 0.97:
+            ops.append(["LW", rng.randrange(-n - 1, n + 1) if n else 0, rng.randrange(0, 1 << 10)])
+        else:
+            ops.append(["LN"])
+    return ops
 
 
 # ----------------------------------------------------------------------
@@ -212,6 +258,15 @@ def build_image(spec):
     return Image(data, cmap), data
 
 
+def fresh_copy(img):
+    """an independent image object with the same content (own array, own coordinate map)"""
+    from nipy.core.api import AffineTransform, CoordinateSystem, Image
+    cmap = AffineTransform(CoordinateSystem(list(img.axes.coord_names), img.axes.name),
+                           CoordinateSystem(list(img.reference.coord_names), img.reference.name),
+                           np.array(img.affine, dtype=float, copy=True))
+    return Image(np.array(img.get_fdata(), copy=True), cmap)
+
+
 def py_slicer(atoms, bare):
     out = []
     for a in atoms:
@@ -221,7 +276,11 @@ def py_slicer(atoms, bare):
             out.append(slice(a[1], a[2], a[3]))
         else:
             out.append(Ellipsis)
-    return out[0] if (bare and len(out) == 1) else tuple(out)
+    return out[0] if (bare is True and len(out) == 1) else tuple(out)
+
+
+def _ornt_list(o):
+    return [None if np.isnan(v) else int(v) for v in o]
 
 
 def ornt_of(aff, fix0):
@@ -230,10 +289,45 @@ def ornt_of(aff, fix0):
     from nipy.core.reference.coordinate_map import _fix0
     try:
         a = _fix0(aff) if fix0 else aff
-        o = io_orientation(a)[:, 0]
-        return [None if np.isnan(v) else int(v) for v in o]
+        return _ornt_list(io_orientation(a)[:, 0])
     except Exception:
         return []
+
+
+def is_monomial(aff, fix0):
+    """linear part (after _fix0 when asked) has at most one non-zero entry per row and column"""
+    from nipy.core.reference.coordinate_map import _fix0
+    a = np.asarray(_fix0(aff) if fix0 else aff, dtype=float)[:-1, :-1]
+    nz = a != 0
+    return bool(np.all(nz.sum(axis=0) <= 1) and np.all(nz.sum(axis=1) <= 1))
+
+
+_IO_SRC = None
+
+
+def polar_and_keys(aff):
+    """the polar factor `R` io_orientation computes and the keys that order its loop
+    (nibabel's own lines up to the loop)"""
+    global _IO_SRC
+    import numpy.linalg as npl
+    from nibabel.orientations import io_orientation
+    if _IO_SRC is None:
+        _IO_SRC = inspect.getsource(io_orientation)
+    affine = np.asarray(aff)
+    q, p = affine.shape[0] - 1, affine.shape[1] - 1
+    RZS = affine[:q, :p]
+    zooms = np.sqrt(np.sum(RZS * RZS, axis=0))
+    zooms[zooms == 0] = 1
+    RS = RZS / zooms
+    P, S, Qs = npl.svd(RS, full_matrices=False)
+    tol = S.max() * max(RS.shape) * np.finfo(S.dtype).eps
+    keep = S > tol
+    R = np.dot(P[:, keep], Qs[keep])
+    if "argsort" in _IO_SRC:
+        keys = np.min(-(R ** 2), axis=0)
+    else:                                  # older nibabel: input axes in their own order
+        keys = np.zeros(p)
+    return R, keys
 
 
 def xyz_params(img):
@@ -255,11 +349,14 @@ def xyz_params(img):
 
 
 def apply_op(img, op):
-    """run one operation of the real code; returns the result (Image or array scalar)"""
+    """run one operation of the real code; returns the result (Image or array scalar; for
+    iter_axis the list of what the generator yields with asarray=False)"""
     from nipy.core.image import image as im
     from nipy.core.image.image_spaces import as_xyz_image
     k = op[0]
     if k == "G":
+        if op[2] == "sub":
+            return im.subsample(img, im.slice_maker[py_slicer(op[1], False)])
         return img[py_slicer(op[1], op[2])]
     if k == "RA":
         return img.reordered_axes(None if op[1] is None else list(op[1]))
@@ -290,6 +387,17 @@ def _isperm(o, n):
     return sorted(o) == list(range(n))
 
 
+def axis_status(a, inn, outn, is_start=False):
+    n = len(inn)
+    if isinstance(a, int):
+        if -n <= a < n or (is_start and a == n):
+            return "ok"
+        return "either" if is_start else "refuse"
+    if a in inn:
+        return "either" if a in outn else "ok"
+    return "either" if a in outn else "refuse"
+
+
 def expect(op, shape, inn, outn):
     """'ok' (must succeed), 'refuse' (not a valid request), 'either' (a documented refusal is legal)"""
     n, m = len(inn), len(outn)
@@ -301,8 +409,8 @@ def expect(op, shape, inn, outn):
             return "refuse"
         if len(atoms) != len(ne):
             i = [a[0] for a in atoms].index("E")
-            atoms = atoms[:i] + [["S", None, None, None]] * (n - len(ne)) + atoms[i + 1:]
-        atoms = atoms + [["S", None, None, None]] * (n - len(atoms))
+            atoms = atoms[:i] + [FULL] * (n - len(ne)) + atoms[i + 1:]
+        atoms = atoms + [FULL] * (n - len(atoms))
         names = []
         for a, s, nm in zip(atoms, shape, inn):
             if a[0] == "I":
@@ -334,21 +442,11 @@ def expect(op, shape, inn, outn):
             return "refuse"
         new = [mp.get(x, x) for x in names]
         return "ok" if len(set(new)) == len(new) else "refuse"
-
-    def axis_status(a, is_start=False):
-        if isinstance(a, int):
-            if -n <= a < n or (is_start and a == n):
-                return "ok"
-            return "either" if is_start else "refuse"
-        if a in inn:
-            return "either" if a in outn else "ok"
-        return "either" if a in outn else "refuse"
-
     if k == "RI":
-        s = [axis_status(op[1]), axis_status(op[2], True)]
+        s = [axis_status(op[1], inn, outn), axis_status(op[2], inn, outn, True)]
         return "refuse" if "refuse" in s else ("either" if "either" in s else "ok")
     if k == "IT":
-        return axis_status(op[1])
+        return axis_status(op[1], inn, outn)
     if k == "RX":
         a, inv = op[1], op[2]
         if inv:
@@ -379,8 +477,20 @@ def t_axis(a):
     return f"I {a}" if isinstance(a, int) else f"S {a}"
 
 
+def t_optaxis(a):
+    return "N" if a is None else t_axis(a)
+
+
 def t_ornt(o):
     return f"{len(o)} " + " ".join(t_opt(v) for v in o) if o else "0"
+
+
+def t_orntsrc(aff, fix0=True):
+    """`M` (the model computes the orientation itself) for affines with a monomial linear part,
+    otherwise the orientation nibabel computed"""
+    if is_monomial(aff, fix0):
+        return "M"
+    return t_ornt(ornt_of(aff, fix0))
 
 
 def t_order(o):
@@ -404,20 +514,27 @@ def t_op(op, img):
     if k in ("NA", "NR"):
         return f"{k} {len(op[1])} " + " ".join(f"{a} {b}" for a, b in op[1])
     if k == "RI":
-        return f"RI {t_axis(op[1])} {t_axis(op[2])} {t_ornt(ornt_of(img.affine, True))}"
+        return f"RI {t_axis(op[1])} {t_axis(op[2])} {t_orntsrc(img.affine)}"
     if k == "RX":
         return f"RX {t_axis(op[1])} {1 if op[2] else 0}"
     if k == "SY":
         return (f"SY {len(op[1])} " + " ".join(op[1]) + f" {len(op[2])} " + " ".join(op[2])
                 + f" {1 if op[3] else 0} {1 if op[4] else 0}")
     if k == "IT":
-        return f"IT {t_axis(op[1])} {op[2]} {t_ornt(ornt_of(img.affine, True))}"
+        return f"IT {t_axis(op[1])} {op[2]} {t_orntsrc(img.affine)} {1 if (len(op) > 3 and op[3]) else 0}"
     if k == "XY":
-        o0, o1, o2 = xyz_params(img)
         pairs = sorted((a, XYZI[b]) for a, b in N2X.items())
-        return (f"XY {len(pairs)} " + " ".join(f"{a} {b}" for a, b in pairs)
-                + f" {t_ornt(o0)} {t_ornt(o1)} {t_ornt(o2)}")
+        head = f"XY {len(pairs)} " + " ".join(f"{a} {b}" for a, b in pairs)
+        if is_monomial(img.affine, False):
+            return head + " M"
+        o0, o1, o2 = xyz_params(img)
+        return head + f" O {t_ornt(o0)} {t_ornt(o1)} {t_ornt(o2)}"
     raise ValueError(k)
+
+
+def t_arr(a):
+    a = np.asarray(a)
+    return "A " + " ".join(str(s) for s in a.shape) + " | " + " ".join(fr(v) for v in a.ravel().tolist())
 
 
 def t_state(res):
@@ -431,6 +548,10 @@ def t_state(res):
     return "V " + fr(np.asarray(res).item())
 
 
+def t_list(il):
+    return "L %d" % len(il.list) + "".join(" || " + t_state(x) for x in il.list)
+
+
 def t_image(spec):
     aff = np.array(spec["aff"], dtype=float)
     n = int(np.prod(spec["shape"]))
@@ -441,11 +562,17 @@ def t_image(spec):
             + f" {n} " + " ".join(str(spec.get("base", 0) + i) for i in range(n)))
 
 
+def t_mat(m):
+    m = np.asarray(m, dtype=float)
+    return f"{m.shape[0]} {m.shape[1]} " + " ".join(fr(v) for v in m.ravel().tolist())
+
+
 # ----------------------------------------------------------------------
 # property oracle on the real code
 # ----------------------------------------------------------------------
-def check_against_original(res, img0, data0, base, refmap, what):
-    """every value of `res` at the named world coordinates it has in the original image"""
+def check_against_original(res, img0, data0, base, refmap, what, may_drop=False):
+    """every value of `res` at the named world coordinates it has in the original image
+    (`may_drop`: reference coordinates may have been dropped, the others must agree)"""
     if not hasattr(res, "coordmap"):
         v = np.asarray(res).item()
         if not (base <= v < base + data0.size and float(v).is_integer()):
@@ -468,7 +595,9 @@ def check_against_original(res, img0, data0, base, refmap, what):
     w0 = np.asarray(img0.coordmap(idx0.astype(float))).reshape(idx0.shape[0], -1)
     names, names0 = list(res.reference.coord_names), list(img0.reference.coord_names)
     back = [refmap.get(nm) for nm in names]
-    if sorted(x for x in back if x is not None) != sorted(names0) or None in back:
+    got = sorted(x for x in back if x is not None)
+    if None in back or len(set(got)) != len(got) or not set(got) <= set(names0) or \
+            (not may_drop and got != sorted(names0)):
         return f"{what}: reference coordinates {names} do not correspond to the original {names0}"
     cols = [names0.index(b) for b in back]
     ref = w0[:, cols]
@@ -481,46 +610,217 @@ def check_against_original(res, img0, data0, base, refmap, what):
     return None
 
 
+def check_iteration(els, arrs, img0, data0, base, refmap, shape, what):
+    """all elements of an iteration (asarray False: `els`; True: `arrs` or None)"""
+    seen = set()
+    fail = None
+    for i, el in enumerate(els):
+        f = check_against_original(el, img0, data0, base, refmap, f"{what} element {i}")
+        vals = set(np.asarray(el.get_fdata() if hasattr(el, "coordmap") else el).ravel().tolist())
+        if f is None and seen & vals:
+            f = f"{what}: elements of the iteration share the value {sorted(seen & vals)[0]}"
+        seen |= vals
+        fail = fail or f
+    if len(seen) != int(np.prod(shape)):
+        fail = fail or f"{what}: iteration visits {len(seen)} of {int(np.prod(shape))} values"
+    if arrs is not None:
+        if len(arrs) != len(els):
+            fail = fail or f"{what}: asarray=True yields {len(arrs)} elements, asarray=False {len(els)}"
+        for i, (a, el) in enumerate(zip(arrs, els)):
+            d = np.asarray(el.get_fdata() if hasattr(el, "coordmap") else el)
+            if np.asarray(a).shape != d.shape or not np.array_equal(np.asarray(a), d):
+                fail = fail or f"{what}: asarray=True element {i} differs from the data of the image element"
+    return fail
+
+
+def img_snapshot(img):
+    return Snapshot(data=np.asarray(img.get_fdata()), aff=img.affine, inn=list(img.axes.coord_names),
+                    out=list(img.reference.coord_names))
+
+
+def _tok_same(x, y):
+    """token-wise equal; numbers may differ by rounding (1e-9)"""
+    if x == y:
+        return True
+    xs, ys = x.split(), y.split()
+    if len(xs) != len(ys):
+        return False
+    for a, b in zip(xs, ys):
+        if a == b:
+            continue
+        try:
+            fa, fb = float(frac(a)), float(frac(b))
+        except Exception:
+            return False
+        if abs(fa - fb) > 1e-9 * (1 + max(abs(fa), abs(fb))):
+            return False
+    return True
+
+
 class C02(PropertyCheck):
     id = "C02"
     title = "Image manipulations keep every value at its world position"
-    lean_modules = ["NipyVerif.Props.C02"]
+    lean_modules = ["NipyVerif.Props.C02", "NipyVerif.Props.C02B"]
     driver = "Drivers/C02.lean"
-    rule = ("a case is an image (1..5-D, arange data, integer/dyadic affine: diagonal, flipped, signed "
-            "permutation, oblique, zero-TR; optional extra output axis; axis names shared with reference names "
-            "on purpose) and a history of 1..6 operations drawn from a seeded PRNG against the names/shape of "
-            "the current image (~12 % malformed requests for the refusal branches); thorough adds every slice "
-            "atom of one axis for shapes (3), (2,3), (3,3,2). Non-trivial = at least one operation succeeded "
-            "and the image has more than one voxel; distinct by JSON of the case")
+    rule = ("a case is an image (1..5-D incl. all-singleton and one-proper-axis shapes, arange data, integer/"
+            "dyadic affine: diagonal, flipped, signed permutation, oblique, zero-TR; optional extra output "
+            "axis; axis names shared with reference names on purpose) and (seq) a history of 1..6 operations "
+            "drawn from a seeded PRNG against the names/shape of the current image (~12 % malformed requests), "
+            "(prog) a program applying operations to ANY earlier object of a store, interleaved, (iter) a "
+            "complete iter_axis with asarray False/True for an axis identifier, (ilist) ImageList.from_image + "
+            "list operations, (fromarray / pslice / bbox / ornt / orntm) the helpers; every ndim 1..5 x every "
+            "axis identifier (int incl. negative and out of range, input name, output name, unknown) x asarray "
+            "x dropout is enumerated on fixed images in both tiers; thorough adds every slice atom of one axis "
+            "for shapes (3), (2,3), (3,3,2). Non-trivial = at least one operation succeeded and the image has "
+            "more than one voxel; distinct by JSON of the case")
     assumptions = [
-        "nibabel.io_orientation (SVD based) is a parameter of name resolution (rollimg / iter_axis through "
-        "output names) and of as_xyz_image: the harness passes the orientations computed for the very "
-        "affines the implementation sees; the theorems hold for every value of that parameter",
+        "nibabel.io_orientation: the SVD (polar factor R of the column-normalised linear part) is a parameter; "
+        "the loop after it (processing order, allclose test, argmax with ties, row zeroing) is modelled and "
+        "compared with nibabel on every generated affine; for affines whose linear part is monomial (scaled "
+        "signed partial permutation, incl. zero-TR through _fix0) the model computes the whole orientation "
+        "itself (R = sign pattern) and no parameter is passed; for other affines the harness passes the "
+        "orientations computed for the very affines the implementation sees, and the theorems hold for every "
+        "value of that parameter",
         "np.dot with the selection / permutation / scaling matrices built by _slice, reordered_domain/range "
         "is modelled by its column/row action (exact on the integer and dyadic affines generated)",
-        "NumPy basic indexing / transpose are compared through the data they return (arange data, all "
-        "values distinct), not modelled below the level of `a[start + k*step]` and axis permutation",
-        "'the original image is left unchanged' is checked on the real code (byte digests of data, affine, "
-        "names before/after every operation); the model is purely functional, so the clause is not a theorem",
-        "as_xyz_image's np.allclose(extra columns, 0) is modelled as exact equality with 0",
+        "NumPy basic indexing / transpose / rollaxis are compared through the data they return (arange data, "
+        "all values distinct), not modelled below the level of `a[start + k*step]` and axis permutation",
+        "'the original image is left unchanged' on the real code is an oracle (byte digests of data, affine, "
+        "names of every object before/after every operation, results equal to those on a fresh copy); on the "
+        "model side the store theorems (exec_keeps_objects, exec_outcome_fresh) and naturality in the voxel "
+        "values (step_natural: no operation looks at or depends on values) state it",
+        "as_xyz_image's np.allclose(extra columns, 0) and orth_axes' |x| > 1e-5 are modelled as exact tests "
+        "against 0",
         "the model follows the code with proposed_fixes/C02-*.patch applied (negative axis numbers)",
+        "get_list_data is modelled for lists whose items have one shape (what from_image and list slicing "
+        "produce); NumPy broadcasting of unequal items is outside the model",
     ]
     level_note = ("as_xyz_image and output-name axis resolution are proved for every value of the "
-                  "io_orientation parameter (they can only reorder or refuse); immutability is oracle-only")
+                  "io_orientation parameter (they can only reorder or refuse); the SVD inside io_orientation "
+                  "is not modelled (monomial affines need none)")
 
     # ------------------------------------------------------------------
+    def fixed_images(self):
+        """one image per ndim 1..5 and naming style, for the enumerations"""
+        out = []
+        shapes = {1: [3], 2: [2, 3], 3: [2, 1, 3], 4: [2, 3, 1, 2], 5: [2, 1, 3, 1, 2]}
+        for nd in range(1, 6):
+            for style in range(3):
+                inn = [list("ijklm"), ["x", "j", "z", "l", "m"], list("abcde")][style][:nd]
+                outn = [list("xyztu"), list("xyztu"), ["mx", "my", "mz", "t", "u"]][style][:nd]
+                aff = np.eye(nd + 1)
+                if style == 0:       # diagonal, flipped, offsets
+                    for k in range(nd):
+                        aff[k, k] = [2, -3, 0.5, 4, 1][k]
+                        aff[k, nd] = [1, -2, 3, 0, 5][k]
+                elif style == 1:     # signed permutation (cyclic shift)
+                    aff[:nd, :nd] = 0
+                    for k in range(nd):
+                        aff[(k + 1) % nd, k] = [1, -2, 3, 0.5, -1][k]
+                else:                # oblique
+                    for k in range(nd):
+                        aff[k, k] = [2, 3, 1, 2, 1][k]
+                    if nd >= 2:
+                        aff[0, 1] = 1
+                    if nd >= 3:
+                        aff[2, 0] = -0.5
+                out.append({"shape": shapes[nd], "in": inn, "out": outn, "aff": aff.tolist(),
+                            "base": 0, "dtype": "f8"})
+        return out
+
+    def axis_ids(self, spec):
+        n = len(spec["shape"])
+        return list(range(-n - 1, n + 1)) + list(spec["in"]) + [x for x in spec["out"] if x not in spec["in"]] \
+            + ["nosuch"]
+
     def generate(self, rng, tier):
-        nseq, nslice = (4000, 500) if tier == "quick" else (40000, 4000)
+        q = tier == "quick"
+        nseq, nslice = (3200, 300) if q else (40000, 4000)
+        nprog, nilist, niter = (500, 500, 300) if q else (6000, 6000, 3000)
+        nhelp = 120 if q else 1500
         cases = []
         for _ in range(nseq):
             cases.append({"kind": "seq", "gen": rng.randrange(1 << 40),
                           "nops": rng.choice([1, 1, 2, 3, 4, 5, 6])})
+        for _ in range(nprog):
+            cases.append({"kind": "prog", "gen": rng.randrange(1 << 40), "n": rng.choice([2, 3, 4, 5, 6, 8])})
         for _ in range(nslice):
             n = rng.choice([1, 2, 3, 4, 5, 7])
             cases.append({"kind": "slice", "n": n,
                           "a": rng.choice([None] + list(range(-n - 3, n + 4))),
                           "b": rng.choice([None] + list(range(-n - 3, n + 4))),
                           "c": rng.choice([None, 1, 2, 3, 4, -1, -2, -3, -4, 0])})
+        # enumerations: every ndim x axis identifier x asarray / dropout
+        for spec in self.fixed_images():
+            nd = len(spec["shape"])
+            for ax in self.axis_ids(spec):
+                for flag in (False, True):
+                    cases.append({"kind": "iter", "img": spec, "axis": ax, "asarray": flag})
+                    nit = spec["shape"][ax] if isinstance(ax, int) and -nd <= ax < nd else 2
+                    cases.append({"kind": "ilist", "img": spec, "axis": ax, "dropout": flag,
+                                  "lops": gen_lops(rng, nit, nd - 1)})
+                for inv in (False, True):
+                    cases.append({"kind": "seq", "img": spec, "ops": [["RX", ax, inv]]})
+                for st in ([0, nd, -1] if q else list(range(-nd, nd + 1)) + spec["in"][:1] + spec["out"][-1:]):
+                    cases.append({"kind": "seq", "img": spec, "ops": [["RI", ax, st]]})
+            cases.append({"kind": "ilist", "img": spec, "axis": None, "dropout": True, "lops": []})
+        # random images
+        for _ in range(niter):
+            spec = gen_image(rng, small=True)
+            n = len(spec["shape"])
+            cases.append({"kind": "iter", "img": spec, "axis": gen_axis(rng, n, spec["in"], spec["out"]),
+                          "asarray": rng.random() < 0.6})
+        for _ in range(nilist):
+            spec = gen_image(rng, small=True)
+            n = len(spec["shape"])
+            ax = gen_axis(rng, n, spec["in"], spec["out"]) if rng.random() < 0.97 else None
+            nit = spec["shape"][ax] if isinstance(ax, int) and -n <= ax < n else rng.choice([1, 2, 3])
+            cases.append({"kind": "ilist", "img": spec, "axis": ax, "dropout": rng.random() < 0.6,
+                          "lops": gen_lops(rng, nit, n - 1)})
+        for _ in range(nhelp):
+            # fromarray
+            nd = rng.choice([1, 2, 3, 4])
+            shape = [rng.choice([1, 2, 3]) for _ in range(nd)]
+            inn = rng.choice(IN_POOLS)[:nd]; outn = rng.choice(OUT_POOLS)[:nd]
+            r = rng.random()
+            if r < 0.1:
+                inn = inn[:-1]
+            elif r < 0.2:
+                outn = outn + ["extra"]
+            elif r < 0.3 and nd > 1:
+                inn = [inn[0]] + inn[:-1]
+            elif r < 0.35:
+                inn, outn = inn + ["p"], outn + ["q"]
+            cases.append({"kind": "fromarray", "shape": shape, "in": inn, "out": outn,
+                          "base": rng.choice([0, 3, -4])})
+            # make_xyz_image
+            nd = rng.choice([2, 3, 3, 4, 4, 5])
+            shape = [rng.choice([1, 2, 3]) for _ in range(nd)]
+            xyz = np.eye(4)
+            xyz[:3, :3] = [[rng.choice([0, 0, 1, -1, 2, 0.5, -3]) for _ in range(3)] for _ in range(3)]
+            xyz[:3, 3] = [rng.choice([0, 1, -2.5, 10]) for _ in range(3)]
+            r = rng.random()
+            zooms = None if r < 0.4 else [rng.choice([1, 2, 0.5, 0, -1]) for _ in range(max(0, nd - 3))]
+            if zooms is not None and rng.random() < 0.15:
+                zooms = zooms + [3]
+            cases.append({"kind": "mkxyz", "shape": shape, "xyz": xyz.tolist(), "zooms": zooms,
+                          "world": rng.choice(["scanner", "mni", "talairach", "aligned"]), "base": rng.choice([0, 5])})
+            # plane slices + their bounding box
+            def spec1():
+                no = rng.choice([1, 2, 2, 3, 3, 5, 9])
+                lo = rng.choice([-8, -2.5, 0, 1, 4])
+                step = rng.choice([0, 0.5, 1, 2, -1, -0.25])
+                return [lo, lo + step * (no - 1), no]
+            cases.append({"kind": "pslice", "which": rng.randrange(3), "fixed": rng.choice([0, 30, -7.5, 2]),
+                          "a": spec1(), "b": spec1(), "world": rng.choice(["scanner", "mni", "xyz"])})
+            # bounding box of an image and of a slice of it
+            spec = gen_image(rng, small=True)
+            cases.append({"kind": "bbox", "img": spec, "sl": gen_getitem(rng, spec["shape"])[1],
+                          "shape": None if rng.random() < 0.85 else
+                          rng.choice([spec["shape"][:-1], spec["shape"] + [2], [0] + spec["shape"][1:]])})
+            # io_orientation
+            spec = gen_image(rng, small=True)
+            cases.append({"kind": "ornt", "aff": spec["aff"], "fix": rng.random() < 0.5})
         if tier == "thorough":
             for shape in ([3], [2, 3], [3, 3, 2]):
                 spec0 = {"shape": shape, "in": list("ijk")[: len(shape)], "out": list("xyz")[: len(shape)],
@@ -540,7 +840,7 @@ class C02(PropertyCheck):
                     atoms += [["S", a, b, c] for a in rng_ for b in rng_
                               for c in (None, 1, 2, 3, -1, -2, -3)]
                     for at in atoms:
-                        full = [["S", None, None, None]] * nd
+                        full = [FULL] * nd
                         full[ax] = at
                         cases.append({"kind": "seq", "img": spec0, "ops": [["G", full, False]]})
         return cases
@@ -549,12 +849,30 @@ class C02(PropertyCheck):
     def materialise(self, case):
         """explicit image + operations of a seeded case (the operations are drawn against the names
         and shape the real code produced so far)"""
-        if "ops" in case:
+        if "gen" not in case:
             return case
         warnings.filterwarnings("ignore")
         rng = random.Random(case["gen"])
         spec = gen_image(rng)
         img, _ = build_image(spec)
+        if case["kind"] == "prog":
+            objs, instrs = [img], []
+            for _ in range(case["n"]):
+                src = 0 if rng.random() < 0.45 else rng.randrange(len(objs))
+                g = objs[src]
+                op = gen_op(rng, list(g.shape), list(g.axes.coord_names), list(g.reference.coord_names))
+                try:
+                    res = apply_op(g, op)
+                except Exception:
+                    instrs.append([src, op])
+                    continue
+                if op[0] == "IT":
+                    op = ["IT", op[1], (op[2] % len(res)) if len(res) else 0, op[3]]
+                    res = res[op[2]] if res else None
+                instrs.append([src, op])
+                if hasattr(res, "coordmap"):
+                    objs.append(res)
+            return {"kind": "prog", "img": spec, "instrs": instrs}
         ops = []
         for _ in range(case["nops"]):
             op = gen_op(rng, list(img.shape), list(img.axes.coord_names), list(img.reference.coord_names))
@@ -564,7 +882,7 @@ class C02(PropertyCheck):
                 ops.append(op)
                 break
             if op[0] == "IT":
-                op = ["IT", op[1], (op[2] % len(res)) if len(res) else 0]
+                op = ["IT", op[1], (op[2] % len(res)) if len(res) else 0, op[3]]
                 res = res[op[2]] if res else None
             ops.append(op)
             if not hasattr(res, "coordmap"):
@@ -572,62 +890,93 @@ class C02(PropertyCheck):
             img = res
         return {"kind": "seq", "img": spec, "ops": ops}
 
+    # ------------------------------------------------------------------
+    def one_op(self, img, op, what, img0, data0, base, refmap):
+        """run `op` on `img`: (result or None, observation, tag, failure, mutation, new refmap)"""
+        from nipy.core.image import image as im
+        shape, inn, outn = list(img.shape), list(img.axes.coord_names), list(img.reference.coord_names)
+        exp = expect(op, shape, inn, outn)
+        snap = img_snapshot(img)
+        fail = mut = None
+        asarr = op[0] == "IT" and len(op) > 3 and op[3]
+        arrs, arr_obs = None, ""
+        if asarr:
+            try:
+                arrs = list(im.iter_axis(img, op[1], asarray=True))
+                k = op[2]
+                arr_obs = " ## " + (t_arr(arrs[k]) if k < len(arrs) else "E error:indexError")
+            except Exception as e:   # noqa: BLE001
+                arr_obs = " ## E " + errname(e)
+                if exp == "ok":
+                    fail = (f"{what}: iter_axis(..., asarray=True) raised {type(e).__name__}: {e} for the valid "
+                            f"axis {op[1]!r} of an image with shape {shape}, axes {inn}, reference {outn}")
+                elif type(e).__name__ not in LEGAL_REFUSALS:
+                    fail = f"{what}: unexpected {type(e).__name__}: {e} for iter_axis(..., asarray=True), {op}"
+        affable = None
+        if op[0] == "XY":
+            from nipy.core.image.image_spaces import is_xyz_affable
+            affable = bool(is_xyz_affable(img, N2X))
+            arr_obs = " ## X " + ("1" if affable else "0")
+        try:
+            res = apply_op(img, op)
+        except Exception as e:   # noqa: BLE001 - every refusal is an observation
+            cls = type(e).__name__
+            if affable:
+                fail = fail or f"{what}: as_xyz_image raised {cls}: {e} although is_xyz_affable(img) is True"
+            if exp == "ok":
+                fail = fail or (f"{what}: {cls}: {e} raised for a valid request {op} on an image with shape "
+                                f"{shape}, axes {inn}, reference {outn}")
+            elif cls not in LEGAL_REFUSALS:
+                fail = fail or f"{what}: unexpected {cls}: {e} for {op}"
+            return None, "E " + errname(e) + arr_obs, f"{op[0]}:refused", fail, None, refmap
+        ch = snap.changed()
+        if ch:
+            mut = f"{what} changed its input image ({ch})"
+        tag = f"{op[0]}:ok" + ("" if exp == "ok" else f"({exp})") + (":asarray" if asarr else "")
+        if op[0] == "XY":
+            from nipy.core.image.image_spaces import is_xyz_affable
+            if affable and res is not img:
+                fail = fail or f"{what}: the image is xyz-affable but as_xyz_image did not return it unchanged"
+            if not is_xyz_affable(res, N2X):
+                fail = fail or f"{what}: the image as_xyz_image returned is not xyz-affable"
+        if op[0] == "NR":
+            mp = dict((a, b) for a, b in op[1])
+            refmap = {mp.get(nm, nm): refmap[nm] for nm in outn}
+        if op[0] == "IT":
+            fail = fail or check_iteration(res, arrs, img0, data0, base, refmap, shape, what)
+            res = res[op[2]]
+        else:
+            fail = fail or check_against_original(res, img0, data0, base, refmap, what)
+        return res, t_state(res) + arr_obs, tag, fail, mut, refmap
+
     def run_case(self, case):
         warnings.filterwarnings("ignore")
-        if case["kind"] == "slice":
+        kind = case["kind"]
+        if kind == "slice":
             return self._slice(case)
+        if kind in ("iter", "ilist", "fromarray", "pslice", "bbox", "ornt", "mkxyz"):
+            return getattr(self, "_" + kind)(case)
         c = self.materialise(case)
+        if kind == "prog":
+            return self._prog(c)
         spec, ops = c["img"], c["ops"]
         img0, data0 = build_image(spec)
         base = spec.get("base", 0)
-        snap0 = Snapshot(data=data0, aff=img0.affine, inn=list(img0.axes.coord_names),
-                         out=list(img0.reference.coord_names))
+        snap0 = img_snapshot(img0)
         refmap = {nm: nm for nm in img0.reference.coord_names}
         img = img0
         toks, obs, tags = [], [], []
         fail, mut = None, None
         ok_ops = 0
         for step_no, op in enumerate(ops):
-            shape, inn, outn = list(img.shape), list(img.axes.coord_names), list(img.reference.coord_names)
-            exp = expect(op, shape, inn, outn)
             toks.append(t_op(op, img))
-            what = f"step {step_no} {op[0]}"
-            snap = Snapshot(data=np.asarray(img.get_fdata()), aff=img.affine, inn=inn, out=outn)
-            try:
-                res = apply_op(img, op)
-            except Exception as e:   # noqa: BLE001 - every refusal is an observation
-                obs.append("E " + errname(e))
-                tags.append(f"{op[0]}:refused")
-                cls = type(e).__name__
-                if exp == "ok":
-                    fail = fail or (f"{what}: {cls}: {e} raised for a valid request {op} on an image with shape "
-                                    f"{shape}, axes {inn}, reference {outn}")
-                elif cls not in LEGAL_REFUSALS:
-                    fail = fail or f"{what}: unexpected {cls}: {e} for {op}"
+            res, ob, tag, f, m, refmap = self.one_op(img, op, f"step {step_no} {op[0]}", img0, data0, base, refmap)
+            obs.append(ob); tags.append(tag)
+            fail = fail or f
+            mut = mut or m
+            if res is None:
                 break
-            ch = snap.changed()
-            if ch:
-                mut = mut or f"{what} changed its input image ({ch})"
-            tags.append(f"{op[0]}:ok" + ("" if exp == "ok" else f"({exp})"))
             ok_ops += 1
-            if op[0] == "NR":
-                mp = dict((a, b) for a, b in op[1])
-                refmap = {mp.get(nm, nm): refmap[nm] for nm in outn}
-            if op[0] == "IT":
-                seen = set()
-                for i, el in enumerate(res):
-                    f = check_against_original(el, img0, data0, base, refmap, f"{what} element {i}")
-                    vals = set(np.asarray(el.get_fdata() if hasattr(el, "coordmap") else el).ravel().tolist())
-                    if f is None and seen & vals:
-                        f = f"{what}: elements of the iteration share the value {sorted(seen & vals)[0]}"
-                    seen |= vals
-                    fail = fail or f
-                if len(seen) != int(np.prod(shape)):
-                    fail = fail or f"{what}: iteration visits {len(seen)} of {int(np.prod(shape))} values"
-                res = res[op[2]]
-            else:
-                fail = fail or check_against_original(res, img0, data0, base, refmap, what)
-            obs.append(t_state(res))
             if not hasattr(res, "coordmap"):
                 tags.append("scalar")
                 break
@@ -642,6 +991,448 @@ class C02(PropertyCheck):
                 "nontrivial": ok_ops >= 1 and data0.size > 1, "tags": sorted(set(tags)) + [f"nd={data0.ndim}"],
                 "mutated": mut}
 
+    # ------------------------------------------------------------------
+    def _prog(self, c):
+        """operations applied to any earlier object, interleaved: every result must be what the
+        operation gives on a fresh copy of its source, and no object may ever change"""
+        spec, instrs = c["img"], c["instrs"]
+        img0, data0 = build_image(spec)
+        base = spec.get("base", 0)
+        objs = [img0]
+        snaps = [img_snapshot(img0)]
+        refmaps = [{nm: nm for nm in img0.reference.coord_names}]
+        toks, obs, tags = [], [], ["prog"]
+        fail = mut = None
+        ok_ops = 0
+        for no, (src, op) in enumerate(instrs):
+            if src >= len(objs):
+                toks.append(f"{src} " + t_op(op, objs[0])); obs.append("E error:indexError")
+                continue
+            g = objs[src]
+            toks.append(f"{src} " + t_op(op, g))
+            what = f"instruction {no} ({op[0]} on object {src})"
+            fresh = fresh_copy(g)
+            res, ob, tag, f, m, rm = self.one_op(g, op, what, img0, data0, base, refmaps[src])
+            obs.append(ob); tags.append(tag)
+            fail = fail or f
+            mut = mut or m
+            # the same request on a fresh copy of the source
+            res2, ob2, _, _, _, _ = self.one_op(fresh, op, what + " [fresh copy]", img0, data0, base, refmaps[src])
+            if hasattr(res, "coordmap") and hasattr(res2, "coordmap") and (not (res == res2) or (res != res2)):
+                fail = fail or f"{what}: Image.__eq__ says the result differs from the result on a fresh copy"
+            if hasattr(res, "coordmap") and hasattr(res2, "coordmap") and \
+                    (not (res.coordmap == res2.coordmap) or (res.coordmap != res2.coordmap)):
+                fail = fail or f"{what}: the coordinate map differs from the one obtained on a fresh copy"
+            if ob2 != ob:
+                fail = fail or (f"{what}: result on the object that was used before differs from the result "
+                                f"on a fresh copy: {ob[:160]!r} vs {ob2[:160]!r}")
+            if res is not None:
+                ok_ops += 1
+                if hasattr(res, "coordmap"):
+                    objs.append(res); snaps.append(img_snapshot(res)); refmaps.append(rm)
+        for i, s in enumerate(snaps):
+            ch = s.changed()
+            if ch:
+                mut = mut or f"object {i} of the store changed after it was made ({ch})"
+        if mut:
+            fail = fail or mut
+        line = "prog " + t_image(spec) + f" {len(toks)} " + " ".join(toks)
+        return {"lines": [line] if toks else [], "impl": [obs] if toks else [], "oracle": fail,
+                "nontrivial": ok_ops >= 1 and data0.size > 1,
+                "tags": sorted(set(tags)) + [f"nd={data0.ndim}", f"objs={min(len(objs), 5)}"], "mutated": mut}
+
+    def _iter(self, c):
+        from nipy.core.image import image as im
+        spec, ax, flag = c["img"], c["axis"], c["asarray"]
+        img0, data0 = build_image(spec)
+        base = spec.get("base", 0)
+        shape, inn, outn = list(img0.shape), list(img0.axes.coord_names), list(img0.reference.coord_names)
+        exp = axis_status(ax, inn, outn)
+        refmap = {nm: nm for nm in outn}
+        snap = img_snapshot(img0)
+        fail = None
+        what = f"iter_axis(axis={ax!r}, asarray={flag})"
+        els = arrs = None
+        try:
+            els = list(im.iter_axis(img0, ax))
+        except Exception as e:   # noqa: BLE001
+            ob = "E " + errname(e)
+            if exp == "ok":
+                fail = f"{what}: {type(e).__name__}: {e} for a valid axis of an image with shape {shape}"
+            elif type(e).__name__ not in LEGAL_REFUSALS:
+                fail = f"{what}: unexpected {type(e).__name__}: {e}"
+        if flag:
+            try:
+                arrs = list(im.iter_axis(img0, ax, asarray=True))
+                ob = " ;; ".join(t_arr(a) for a in arrs)
+            except Exception as e:   # noqa: BLE001
+                ob = "E " + errname(e)
+                if exp == "ok" or els is not None:
+                    fail = fail or (f"{what}: {type(e).__name__}: {e} although the axis is valid for an image "
+                                    f"with shape {shape}, axes {inn}, reference {outn}")
+                elif type(e).__name__ not in LEGAL_REFUSALS:
+                    fail = fail or f"{what}: unexpected {type(e).__name__}: {e}"
+        elif els is not None:
+            ob = " ;; ".join(t_state(e) for e in els)
+        if els is not None:
+            fail = fail or check_iteration(els, arrs, img0, data0, base, refmap, shape, what)
+        mut = None
+        if snap.changed():
+            mut = f"{what} changed the image ({snap.changed()})"
+            fail = fail or mut
+        line = f"iterall {t_image(spec)} {t_axis(ax)} {t_orntsrc(img0.affine)} {1 if flag else 0}"
+        return {"lines": [line], "impl": [[ob]], "oracle": fail, "nontrivial": els is not None and data0.size > 1,
+                "tags": [f"iter:{'ok' if els is not None else 'refused'}" + (":asarray" if flag else ""),
+                         f"nd={data0.ndim}"], "mutated": mut}
+
+    def _ilist(self, c):
+        from nipy.core.api import ImageList
+        spec, ax, drop, lops = c["img"], c["axis"], c["dropout"], c["lops"]
+        img0, data0 = build_image(spec)
+        base = spec.get("base", 0)
+        shape, inn, outn = list(img0.shape), list(img0.axes.coord_names), list(img0.reference.coord_names)
+        n = len(shape)
+        refmap = {nm: nm for nm in outn}
+        snap = img_snapshot(img0)
+        fail = None
+        tags = []
+        what = f"ImageList.from_image(axis={ax!r}, dropout={drop})"
+        # text for the model: orientation of the image and of its slices
+        o_txt = t_orntsrc(img0.affine)
+        os_txt = "0"
+        try:
+            from nipy.core.reference.coordinate_map import io_axis_indices
+            in_ax, _ = io_axis_indices(img0.coordmap, ax) if ax is not None else (None, None)
+        except Exception:
+            in_ax = None
+        contradictory = False
+        if in_ax is not None and n >= 2 and -n <= in_ax < n:
+            from nipy.core.image.image import rollimg
+            sl_aff = np.asarray(rollimg(img0, in_ax)[0].affine)     # _slice zeroes length-1 axes
+            os_txt = "M" if is_monomial(sl_aff, False) else t_ornt(ornt_of(sl_aff, False))
+            # the output axis to drop is still the closest output of a remaining input axis
+            # (rank-deficient / strongly oblique affine): dropping it is contradictory, any refusal is legal
+            o_full = ornt_of(img0.affine, True)
+            out_ax = o_full[in_ax] if in_ax < len(o_full) else None
+            contradictory = out_ax is not None and out_ax in ornt_of(sl_aff, False)
+        if ax is None:
+            exp = "refuse"
+        else:
+            exp = axis_status(ax, inn, outn)
+            if n == 1 and exp != "refuse":
+                exp = "refuse1d"          # the slices of a 1-D image are not images
+            elif exp == "ok" and drop:
+                exp = "either"            # drop_io_dim refuses non-orthogonal axes
+        obs = []
+        il = None
+        try:
+            il = ImageList.from_image(img0, ax, dropout=drop)
+            obs.append(t_list(il))
+            tags.append("from_image:ok" + ("" if exp == "ok" else f"({exp})"))
+        except Exception as e:   # noqa: BLE001
+            cls = type(e).__name__
+            obs.append("E " + errname(e))
+            tags.append("from_image:refused")
+            if exp == "ok":
+                fail = f"{what}: {cls}: {e} for a valid axis of an image with shape {shape}, axes {inn}, reference {outn}"
+            elif exp == "refuse1d":
+                if cls not in ("AttributeError", "ValueError", "AxisError"):
+                    fail = f"{what}: unexpected {cls}: {e} for a 1-D image"
+            elif exp == "either" and axis_status(ax, inn, outn) == "ok" and cls != "AxisError" \
+                    and not (contradictory and cls == "ValueError"):
+                # a valid axis: the only documented refusal is drop_io_dim's AxisError (axis not orthogonal)
+                fail = (f"{what}: {cls}: {e} for a valid axis of an image with shape {shape}, axes {inn}, "
+                        f"reference {outn}, affine {np.asarray(img0.affine).tolist()}")
+            elif cls not in LEGAL_REFUSALS + ("KeyError",):
+                fail = f"{what}: unexpected {cls}: {e}"
+        if il is not None:
+            if exp in ("refuse", "refuse1d"):
+                fail = fail or f"{what}: accepted although the request is not valid"
+            # every item against the original, the items together cover the image exactly once
+            seen = set()
+            for i, it in enumerate(il.list):
+                f = check_against_original(it, img0, data0, base, refmap, f"{what} item {i}", may_drop=drop)
+                vals = set(np.asarray(it.get_fdata()).ravel().tolist())
+                if f is None and seen & vals:
+                    f = f"{what}: items share the value {sorted(seen & vals)[0]}"
+                seen |= vals
+                if f is None and not drop and list(it.reference.coord_names) != outn:
+                    f = f"{what}: dropout=False changed the reference {outn} -> {list(it.reference.coord_names)}"
+                fail = fail or f
+            if len(seen) != data0.size:
+                fail = fail or f"{what}: the items hold {len(seen)} of {data0.size} values"
+            cur = il
+            for no, lop in enumerate(lops):
+                lw = f"{what} then list op {no} {lop}"
+                try:
+                    if lop[0] == "LI":
+                        r = cur[int(lop[1])]
+                        if r is not cur.list[int(lop[1])]:
+                            fail = fail or f"{lw}: not the item stored at that position"
+                        obs.append(t_state(r))
+                    elif lop[0] == "LS":
+                        r = cur[slice(lop[1], lop[2], lop[3])]
+                        want = cur.list[slice(lop[1], lop[2], lop[3])]
+                        if len(r.list) != len(want) or any(a is not b for a, b in zip(r.list, want)):
+                            fail = fail or f"{lw}: the new list does not hold the selected items"
+                        obs.append(t_list(r))
+                        cur = r
+                    elif lop[0] == "LO":
+                        kind_ = lop[1] if cur.list else "list"     # an empty list fails earlier
+                        idx = {"list": [0], "array": np.array([0, 0]), "tuple": (0,), "npint": np.int64(0),
+                               "bool": False}[kind_]
+                        r = cur[idx]
+                        obs.append(t_list(r) if hasattr(r, "list") else t_state(r))
+                    elif lop[0] == "LW":
+                        if len(cur) == 0:                                    # ImageList.__len__
+                            raise IndexError("empty list")
+                        cur[int(lop[1])] = cur.list[lop[2] % len(cur)]      # ImageList.__setitem__
+                        obs.append(t_list(cur))
+                    elif lop[0] in ("LD", "LA"):
+                        a = lop[1] if lop[0] == "LD" else 0
+                        r = cur.get_list_data(axis=a) if lop[0] == "LD" else cur.__array__()
+                        obs.append(t_arr(r))
+                        ish = tuple(cur.list[0].shape)
+                        ap = a + len(ish) + 1 if a < 0 else a
+                        if r.shape != ish[:ap] + (len(cur.list),) + ish[ap:]:
+                            fail = fail or f"{lw}: shape {r.shape}"
+                        else:
+                            for i, it in enumerate(cur.list):
+                                if not np.array_equal(np.take(r, i, axis=ap), np.asarray(it.get_fdata())):
+                                    fail = fail or f"{lw}: position {i} along axis {ap} is not the data of item {i}"
+                                    break
+                    else:
+                        r = [x for x in cur]
+                        if len(r) != len(cur.list) or any(a is not b for a, b in zip(r, cur.list)):
+                            fail = fail or f"{lw}: iteration does not yield the items in order"
+                        obs.append("L %d" % len(r) + "".join(" || " + t_state(x) for x in r))
+                    tags.append(lop[0] + ":ok")
+                except Exception as e:   # noqa: BLE001
+                    obs.append("E " + errname(e))
+                    tags.append(lop[0] + ":refused")
+                    cls = type(e).__name__
+                    nl = len(cur.list)
+                    valid = (lop[0] in ("LI", "LW") and -nl <= lop[1] < nl) or (lop[0] == "LS" and lop[3] != 0) or \
+                        lop[0] == "LN" or (lop[0] == "LA" and nl > 0) or \
+                        (lop[0] == "LD" and nl > 0 and lop[1] is not None and
+                         -len(cur.list[0].shape) - 1 <= lop[1] <= len(cur.list[0].shape))
+                    if valid:
+                        fail = fail or f"{lw}: {cls}: {e} for a valid request on a list of {nl} items"
+                    elif cls not in ("IndexError", "ValueError", "TypeError"):
+                        fail = fail or f"{lw}: unexpected {cls}: {e}"
+        mut = None
+        if snap.changed():
+            mut = f"{what} changed the image ({snap.changed()})"
+            fail = fail or mut
+        lt = []
+        nl_t = len(il.list) if il is not None else 0      # length of the current list, replayed
+        for lop in (lops if il is not None else []):
+            if lop[0] == "LW":
+                # an empty list cannot be written to: the real code raised before reading an item
+                lt.append(f"LW {lop[1]} {lop[2] % nl_t}" if nl_t else "LI 0")
+            elif lop[0] == "LA":
+                lt.append("LD 0")
+            elif lop[0] == "LI":
+                lt.append(f"LI {lop[1]}")
+            elif lop[0] == "LS":
+                lt.append(f"LS {t_opt(lop[1])} {t_opt(lop[2])} {t_opt(lop[3])}")
+                if lop[3] != 0:
+                    nl_t = len(range(*slice(lop[1], lop[2], lop[3]).indices(nl_t)))
+            elif lop[0] == "LO":
+                lt.append("LO")
+            elif lop[0] == "LD":
+                lt.append(f"LD {t_opt(lop[1])}")
+            else:
+                lt.append("LN")
+        line = (f"ilist {t_image(spec)} {t_optaxis(ax)} {1 if drop else 0} {o_txt} {os_txt} {len(lt)} "
+                + " ".join(lt)).rstrip()
+        return {"lines": [line], "impl": [obs], "oracle": fail,
+                "nontrivial": il is not None and data0.size > 1,
+                "tags": sorted(set(tags)) + [f"nd={data0.ndim}"], "mutated": mut}
+
+    def _fromarray(self, c):
+        from nipy.core.image import image as im
+        shape, inn, outn, base = c["shape"], c["in"], c["out"], c["base"]
+        n = int(np.prod(shape))
+        data = (np.arange(n, dtype=float) + base).reshape(shape)
+        snap = Snapshot(data=data)
+        valid = len(inn) == len(outn) == len(shape) and len(set(inn)) == len(inn) and len(set(outn)) == len(outn)
+        fail = None
+        try:
+            img = im.fromarray(data, inn, outn)
+            ob = t_state(img)
+            if not valid:
+                fail = f"fromarray accepted names {inn} / {outn} for an array of shape {shape}"
+            else:
+                idx = np.indices(data.shape).reshape(data.ndim, -1).T.astype(float)
+                if not np.array_equal(np.asarray(img.coordmap(idx)).reshape(idx.shape), idx) or \
+                        not np.array_equal(np.asarray(img.get_fdata()), data) or \
+                        not np.array_equal(img.__array__(), data):
+                    fail = "fromarray: a voxel is not at the world position given by its own index"
+        except Exception as e:   # noqa: BLE001
+            ob = "E " + errname(e)
+            if valid:
+                fail = f"fromarray: {type(e).__name__}: {e} for valid names {inn} / {outn}, shape {shape}"
+            elif type(e).__name__ != "ValueError":
+                fail = f"fromarray: unexpected {type(e).__name__}: {e}"
+        mut = "fromarray changed its array" if snap.changed() else None
+        line = (f"fromarray {len(shape)} " + " ".join(map(str, shape)) + f" {n} "
+                + " ".join(str(base + i) for i in range(n)) + f" {len(inn)} " + " ".join(inn)
+                + f" {len(outn)} " + " ".join(outn))
+        return {"lines": [line], "impl": [[ob]], "oracle": fail or mut, "nontrivial": valid,
+                "tags": ["fromarray:" + ("ok" if ob[0] == "S" else "refused")], "mutated": mut}
+
+    def _mkxyz(self, c):
+        from nipy.core.image.image_spaces import make_xyz_image
+        from nipy.core.reference.spaces import get_world_cs
+        shape, xyz, zooms, world, base = c["shape"], np.array(c["xyz"], dtype=float), c["zooms"], c["world"], c["base"]
+        n = int(np.prod(shape))
+        N = len(shape)
+        data = (np.arange(n, dtype=float) + base).reshape(shape)
+        snap = Snapshot(data=data, xyz=xyz)
+        valid = N >= 3 and (zooms is None or len(zooms) == N - 3)
+        fail = None
+        try:
+            arg = xyz if zooms is None else (xyz, tuple(float(z) for z in zooms))
+            img = make_xyz_image(data, arg, world)
+            ob = t_state(img)
+            if not valid:
+                fail = f"make_xyz_image accepted shape {shape} with zooms {zooms}"
+            else:
+                idx = np.indices(data.shape).reshape(N, -1).T.astype(float)
+                w = np.asarray(img.coordmap(idx)).reshape(idx.shape[0], -1)
+                want = np.zeros_like(w)
+                want[:, :3] = idx[:, :3] @ xyz[:3, :3].T + xyz[:3, 3]
+                for k in range(3, N):
+                    want[:, k] = idx[:, k] * (1.0 if zooms is None else zooms[k - 3])
+                if not np.allclose(w, want) or not np.array_equal(np.asarray(img.get_fdata()), data):
+                    fail = "make_xyz_image: a voxel is not where the xyz affine / the zooms put it"
+        except Exception as e:   # noqa: BLE001
+            ob = "E " + errname(e)
+            if valid:
+                fail = f"make_xyz_image: {type(e).__name__}: {e} for shape {shape}, zooms {zooms}"
+            elif type(e).__name__ != "ValueError":
+                fail = f"make_xyz_image: unexpected {type(e).__name__}: {e}"
+        try:
+            names = list(get_world_cs(world, N).coord_names)
+        except Exception:
+            names = ["w%d" % k for k in range(N)]
+        mut = "make_xyz_image changed its arguments" if snap.changed() else None
+        line = (f"mkxyz {N} " + " ".join(map(str, shape)) + f" {n} " + " ".join(str(base + i) for i in range(n))
+                + " " + t_mat(xyz[:3]) + (" N" if zooms is None else f" Z {len(zooms)} " + " ".join(fr(z) for z in zooms))
+                + f" {len(names)} " + " ".join(names)).replace("  ", " ")
+        return {"lines": [line], "impl": [[ob]], "oracle": fail or mut, "nontrivial": valid,
+                "tags": ["mkxyz:" + ("ok" if ob[0] == "S" else "refused")], "mutated": mut}
+
+    def _pslice(self, c):
+        from nipy.core.reference import slices as sl
+        w, fixed, a, b, world = c["which"], c["fixed"], c["a"], c["b"], c["world"]
+        fn = [sl.xslice, sl.yslice, sl.zslice][w]
+        wid = world
+        if world == "xyz":
+            from nipy.core.api import CoordinateSystem
+            wid = CoordinateSystem("xyz", "w")
+        fail = None
+        valid = a[2] != 1 and b[2] != 1
+        names = ["w1", "w2", "w3"]
+        try:
+            cm = fn(float(fixed), ([float(a[0]), float(a[1])], int(a[2])), ([float(b[0]), float(b[1])], int(b[2])), wid)
+            names = list(cm.function_range.coord_names)
+            box = sl.bounding_box(cm, (a[2], b[2]))
+            ob = ("C " + " ".join(cm.function_domain.coord_names) + " | " + " ".join(names) + " | "
+                  + " ".join(fr(v) for v in np.asarray(cm.affine)[:-1].ravel().tolist())
+                  + " ## B " + " ".join(fr(v) for lim in box for v in lim))
+            # the documented meaning: corner voxels at the (min, min) and (max, max) of the two ranges
+            lo = np.asarray(cm([0, 0])); hi = np.asarray(cm([a[2] - 1, b[2] - 1]))
+            order = [[0, 1, 2], [1, 0, 2], [2, 0, 1]][w]     # fixed, first range, second range
+            want_lo = np.zeros(3); want_hi = np.zeros(3)
+            want_lo[order] = [fixed, a[0], b[0]]; want_hi[order] = [fixed, a[1], b[1]]
+            if not (np.allclose(lo, want_lo) and np.allclose(hi, want_hi)):
+                fail = f"{fn.__name__}: corners at {lo.tolist()} / {hi.tolist()}, expected {want_lo.tolist()} / {want_hi.tolist()}"
+            wb = [(min(x, y), max(x, y)) for x, y in zip(want_lo, want_hi)]
+            if not np.allclose(np.array(box), np.array(wb)):
+                fail = fail or f"bounding_box of {fn.__name__}: {box}, expected {wb}"
+        except Exception as e:   # noqa: BLE001
+            ob = "E " + errname(e)
+            if valid:
+                fail = f"{fn.__name__}: {type(e).__name__}: {e} for ranges {a}, {b}"
+            elif type(e).__name__ != "ZeroDivisionError":
+                fail = f"{fn.__name__}: unexpected {type(e).__name__}: {e}"
+        if ob[0] == "E":
+            from nipy.core.reference.spaces import get_world_cs
+            names = list(get_world_cs(wid).coord_names)
+        line = (f"pslice {w} {fr(fixed)} {fr(a[0])} {fr(a[1])} {a[2]} {fr(b[0])} {fr(b[1])} {b[2]} "
+                + " ".join(names))
+        return {"lines": [line], "impl": [[ob]], "oracle": fail, "nontrivial": valid,
+                "tags": [f"pslice{w}:" + ("ok" if ob[0] == "C" else "refused")], "mutated": None}
+
+    def _bbox(self, c):
+        from nipy.core.reference import slices as sl
+        spec = c["img"]
+        img0, data0 = build_image(spec)
+        shape = c["shape"] if c["shape"] is not None else list(img0.shape)
+        valid = len(shape) == img0.ndim and 0 not in shape
+        fail = None
+        lines, impl, tags = [], [], []
+
+        def brute(img, shp):
+            from nipy.core.reference.array_coords import ArrayCoordMap
+            w = np.asarray(ArrayCoordMap(img.coordmap, tuple(shp)).values).reshape(int(np.prod(shp)), -1)
+            return [(float(w[:, r].min()), float(w[:, r].max())) for r in range(w.shape[1])]
+
+        try:
+            box = sl.bounding_box(img0.coordmap, tuple(shape))
+            ob = "B " + " ".join(fr(v) for lim in box for v in lim)
+            if not valid:
+                fail = f"bounding_box accepted shape {shape} for a {img0.ndim}-D coordinate map"
+            elif not np.allclose(np.array(box), np.array(brute(img0, shape))):
+                fail = f"bounding_box {box} is not the range of the voxel positions {brute(img0, shape)}"
+        except Exception as e:   # noqa: BLE001
+            ob = "E " + errname(e)
+            box = None
+            if valid:
+                fail = f"bounding_box: {type(e).__name__}: {e} for shape {shape}"
+            elif type(e).__name__ not in ("ValueError", "IndexError"):
+                fail = f"bounding_box: unexpected {type(e).__name__}: {e}"
+        lines.append("bbox " + t_mat(np.asarray(img0.affine)[:-1]) + f" {len(shape)} " + " ".join(map(str, shape)))
+        impl.append([ob]); tags.append("bbox:" + ("ok" if ob[0] == "B" else "refused"))
+        # a slice of the image lies inside the box of the image (same reference coordinates)
+        if box is not None and valid and c["shape"] is None:
+            try:
+                sub = img0[py_slicer(c["sl"], False)]
+            except Exception:
+                sub = None
+            if sub is not None and hasattr(sub, "coordmap"):
+                b2 = sl.bounding_box(sub.coordmap, sub.shape)
+                lines.append("bbox " + t_mat(np.asarray(sub.affine)[:-1]) + f" {len(sub.shape)} "
+                             + " ".join(map(str, sub.shape)))
+                impl.append(["B " + " ".join(fr(v) for lim in b2 for v in lim)])
+                tags.append("bbox:slice")
+                for (l0, h0), (l1, h1) in zip(box, b2):
+                    if l1 < l0 - 1e-9 or h1 > h0 + 1e-9:
+                        fail = fail or f"bounding box {b2} of the slice {c['sl']} is not inside {box} of the image"
+        return {"lines": lines, "impl": impl, "oracle": fail, "nontrivial": valid and data0.size > 1,
+                "tags": tags, "mutated": None}
+
+    def _ornt(self, c):
+        from nipy.core.reference.coordinate_map import _fix0
+        aff = np.array(c["aff"], dtype=float)
+        a = np.asarray(_fix0(aff) if c["fix"] else aff, dtype=float)
+        got = "O " + " ".join(t_opt(v) for v in ornt_of(aff, c["fix"]))
+        R, keys = polar_and_keys(a)
+        lines = ["ornt " + t_mat(R) + f" {len(keys)} " + " ".join(fr(v) for v in keys.tolist())]
+        impl = [[got]]
+        tags = ["ornt:polar"]
+        if is_monomial(aff, c["fix"]):
+            lines.append("orntm " + t_mat(aff[:-1, :-1]) + f" {1 if c['fix'] else 0}")
+            impl.append([got])
+            tags.append("ornt:monomial")
+        o = [v for v in ornt_of(aff, c["fix"]) if v is not None]
+        fail = None
+        if len(set(o)) != len(o):
+            fail = f"io_orientation pairs one output axis with two input axes: {o}"
+        return {"lines": lines, "impl": impl, "oracle": fail, "nontrivial": True, "tags": tags, "mutated": None}
+
     def _slice(self, c):
         n, a, b, s = c["n"], c["a"], c["b"], c["c"]
         try:
@@ -653,56 +1444,95 @@ class C02(PropertyCheck):
                 "tags": ["slice-atom"], "mutated": None}
 
     # ------------------------------------------------------------------
-    @staticmethod
-    def _same(x, y):
-        """exact text, or (should a float ever round) equal up to 1e-9 in the affine section"""
-        if x == y:
-            return True
-        xs, ys = x.split(" | "), y.split(" | ")
-        if len(xs) != 5 or len(ys) != 5 or xs[:3] != ys[:3] or xs[4] != ys[4]:
-            return False
-        return cmp_rats([float(frac(t)) for t in xs[3].split()], ys[3]) is None
-
     def compare(self, case, impl_obs, model_out):
         if model_out == "bad-op":
             return "model could not parse the line"
         m = model_out.split(" ;; ")
-        for i, (x, y) in enumerate(zip(impl_obs, m)):
-            if not self._same(x, y):
+        obs = []
+        for x in impl_obs:
+            obs.extend(x.split(" ;; "))
+        for i, (x, y) in enumerate(zip(obs, m)):
+            if not _tok_same(x, y):
                 return f"step {i}: impl={x[:250]!r} model={y[:250]!r}"
-        if len(m) != len(impl_obs):
-            return (f"impl has {len(impl_obs)} observations, model {len(m)}: impl={impl_obs[-1][:200]!r} "
+        if len(m) != len(obs):
+            return (f"impl has {len(obs)} observations, model {len(m)}: impl={obs[-1][:200]!r} "
                     f"model={m[-1][:200]!r}")
         return None
 
     def shrink(self, case):
-        if case.get("kind") != "seq":
+        kind = case.get("kind")
+        if kind not in ("seq", "prog", "iter", "ilist"):
             return
         import harness.overlay  # noqa: F401
         c = self.materialise(case)
         if "gen" in case:
             yield c
-        ops = c["ops"]
-        for i in range(len(ops)):
-            if len(ops) > 1:
-                yield {"kind": "seq", "img": c["img"], "ops": ops[:i] + ops[i + 1:]}
-        if len(ops) > 1:
-            yield {"kind": "seq", "img": c["img"], "ops": ops[:-1]}
-        for i, op in enumerate(ops):
-            if op[0] == "G":
-                for j, at in enumerate(op[1]):
-                    if at != ["S", None, None, None] and at[0] != "E":
-                        atoms = list(op[1]); atoms[j] = ["S", None, None, None]
-                        yield {"kind": "seq", "img": c["img"], "ops": ops[:i] + [["G", atoms, False]] + ops[i + 1:]}
         spec = c["img"]
+
+        def with_img(**kw):
+            d = dict(c); d["img"] = dict(spec, **kw); return d
+        if kind == "seq":
+            ops = c["ops"]
+            for i in range(len(ops)):
+                if len(ops) > 1:
+                    yield {"kind": "seq", "img": spec, "ops": ops[:i] + ops[i + 1:]}
+            if len(ops) > 1:
+                yield {"kind": "seq", "img": spec, "ops": ops[:-1]}
+            for i, op in enumerate(ops):
+                if op[0] == "G":
+                    for j, at in enumerate(op[1]):
+                        if at != FULL and at[0] != "E":
+                            atoms = list(op[1]); atoms[j] = FULL
+                            yield {"kind": "seq", "img": spec, "ops": ops[:i] + [["G", atoms, False]] + ops[i + 1:]}
+        elif kind == "prog":
+            ins = c["instrs"]
+            if len(ins) > 1:
+                yield {"kind": "prog", "img": spec, "instrs": ins[:-1]}
+                for s, op in ins:
+                    if s == 0:
+                        yield {"kind": "seq", "img": spec, "ops": [op]}
+                yield {"kind": "prog", "img": spec, "instrs": [i for i in ins if i[0] == 0]}
+        elif kind == "ilist":
+            if c["lops"]:
+                yield dict(c, lops=c["lops"][:-1])
+                yield dict(c, lops=c["lops"][1:])
         aff = np.array(spec["aff"])
         if np.any(aff[:-1, -1] != 0):
             a2 = aff.copy(); a2[:-1, -1] = 0
-            yield {"kind": "seq", "img": dict(spec, aff=a2.tolist()), "ops": ops}
+            yield with_img(aff=a2.tolist())
         if spec.get("base", 0) != 0:
-            yield {"kind": "seq", "img": dict(spec, base=0), "ops": ops}
+            yield with_img(base=0)
+        if spec.get("dtype", "f8") != "f8":
+            yield with_img(dtype="f8")
+
+    finding_keys = {
+        "from-image-singleton-axis":
+            "ImageList.from_image(img, axis) with dropout=True raises ValueError ('the number of axes implied by "
+            "the coordmap do not match the number of axes of the data') when the slices' affine has exactly one "
+            "all-zero column (a length-1 axis, whose step _slice writes as 0, or a zero TR) and the output row "
+            "to drop is its only all-zero row: drop_io_dim's _fix0 pairs the two and drops that input axis as "
+            "well (fix: proposed_fixes/C02-from-image-singleton-axis.patch)",
+    }
 
     def classify(self, case, failure):
+        """the one known defect: from_image + dropout on slices whose affine `_fix0` rewrites"""
+        if case.get("kind") != "ilist" or not case.get("dropout") or case.get("axis") is None:
+            return None
+        if "number of axes implied" not in failure and "error:valueError" not in failure:
+            return None
+        try:
+            import harness.overlay  # noqa: F401
+            from nipy.core.image.image import rollimg
+            from nipy.core.reference.coordinate_map import _fix0, io_axis_indices
+            img0, _ = build_image(case["img"])
+            in_ax, _ = io_axis_indices(img0.coordmap, case["axis"])
+            if in_ax is None or img0.ndim < 2:
+                return None
+            sl_aff = np.asarray(rollimg(img0, in_ax)[0].affine)
+            if not np.array_equal(np.asarray(_fix0(sl_aff)), sl_aff):
+                return "from-image-singleton-axis"
+        except Exception:
+            return None
         return None
 
 
